@@ -416,4 +416,5 @@ def run_cli(argv, plan=None, stdout=None, stderr=None, swap=True):
     finally:
         if swap:
             sys.stdout, sys.stderr = so, se
-    return {'status': status, 'stdout': out.getvalue(), 'stderr': err.getvalue(), 'traceback': tb, 'exc': exc}
+    return {'status': status, 'stdout': out.getvalue(), 'stderr': err.getvalue(), 'traceback': tb, 'exc': exc,
+            'stdout_writes': getattr(out, 'writes', 0)}
